@@ -15,6 +15,7 @@ package cache
 import (
 	"errors"
 	"fmt"
+	"log"
 	"os"
 	"runtime"
 	"sort"
@@ -128,7 +129,29 @@ var C06RandomPorts bool
 // C06Stat is a process-wide Stat (its statLoop must live outside bubbles).
 var C06Stat *Stat
 
+// c06FatalTrap is installed as the output of the standard logger: log.Fatal
+// (cache.New on a configuration it rejects) would end the test process with
+// exit status 1 and no trace of the case; a panic raised while the message is
+// written surfaces in the running case instead (bubble panic => violation).
+type c06FatalTrap struct{}
+
+func (c06FatalTrap) Write(p []byte) (int, error) {
+	pcs := make([]uintptr, 16)
+	frames := runtime.CallersFrames(pcs[:runtime.Callers(2, pcs)])
+	for {
+		f, more := frames.Next()
+		if strings.HasPrefix(f.Function, "log.Fatal") {
+			panic("log.Fatal would end the process: " + strings.TrimSpace(string(p)))
+		}
+		if !more {
+			break
+		}
+	}
+	return os.Stderr.Write(p)
+}
+
 func init() {
+	log.SetOutput(c06FatalTrap{})
 	logx.Disable()
 	C06Stat = NewStat("c06")
 	// The position of a node on the cluster's hash ring is a function of its
